@@ -165,6 +165,27 @@ def judge(ctx, focus, res, inp, label):
     """Common verdict logic for one classified case."""
     if res["load"][0] != "ok":
         ctx.count("load_refused")
+        # refused by `load`: outside the properties of classification, unless the model of `load` accepts the files
+        try:
+            from . import loading as L
+            rec_ = inp.get("files")
+            if rec_:
+                import datetime as _dt
+
+                def ep(txt):
+                    return int((_dt.datetime.strptime(txt, "%Y-%m-%d %H:%M:%S") - _dt.datetime(1970, 1, 1)).total_seconds())
+                tr = L.Triple([(ep(a), float(b)) for a, b in rec_["precipitation"]], [(ep(a), float(b)) for a, b in rec_["evapotranspiration"]],
+                              [(ep(a), float(b)) for a, b in rec_["water_level"]])
+                if inp.get("timezone", "UTC") == "UTC" and L.model_load(ctx, tr, "f")["outcome"] == "ok":
+                    ctx.corr_break("`spowtd load` accepts the generated record (model load = ok)",
+                                   {"input": inp, "impl": list(res["load"])})
+            else:
+                # windows of the repository's own sample data and the very long records carry no file texts here;
+                # they are built to load
+                ctx.corr_break("`spowtd load` accepts the record (sample data window / long record)",
+                               {"input": {k: v for k, v in inp.items() if k != "files"}, "impl": list(res["load"]), "label": label})
+        except common.DriverError as e:
+            ctx.notes.append("load model unavailable while judging a refused load: %r" % (e,))
         return
     im = res["impl"]
     pr = C.index_problem(res)
@@ -180,7 +201,7 @@ def judge(ctx, focus, res, inp, label):
     if ncand > nstorm or ncand > nrise:
         ctx.count("cases_with_contention")
     if res["classify"][0] != "ok":
-        ctx.count("impl_error_" + res["classify"][1])
+        ctx.count("impl_error_" + str(res["classify"][1]))
     if res["model"]["outcome"] == "ok" and not res["model"]["strict"]:
         ctx.count("cases_with_rise_ties")
     if focus == "C01":
